@@ -392,9 +392,29 @@ func filterAdd(in *Value, param *Value) (*Value, *Error) {
 		}
 		return AsValue(addInts(in.Integer(), param.Integer())), nil
 	}
+	// Integers written as text are added as integers, like numbers: {{ value|add:"2" }}
+	// is 6 for 4 (Django's own example), not 42
+	if a, isInt := integerOperand(in); isInt {
+		if b, isInt := integerOperand(param); isInt {
+			return AsValue(addInts(a, b)), nil
+		}
+	}
 	// If in/param is not a number, we're relying on the
 	// Value's String() conversion and just add them both together
 	return AsValue(in.String() + param.String()), nil
+}
+
+// integerOperand is the integer v holds or, for a string, denotes.
+func integerOperand(v *Value) (int, bool) {
+	if v.IsInteger() {
+		return v.Integer(), true
+	}
+	if v.IsString() {
+		if i, err := strconv.ParseInt(v.String(), 10, strconv.IntSize); err == nil {
+			return int(i), true
+		}
+	}
+	return 0, false
 }
 
 // addInts is a + b for every sum an int can hold; beyond that it saturates, like the
